@@ -175,6 +175,38 @@ def specRun (s : Spec) : List Op → Spec × List Out
 
 def specInit : Spec := { now := 0, live := [] }
 
+/-! ## the returned `float32`
+
+`AveragePerSecond` returns `float32(total) / float32(timeBefore.Seconds())`.  For the shift-clock windows of
+the tie the divisor is the exact integer `2048·h`, so the result is determined by two IEEE-754 binary32
+roundings (round to nearest, ties to even): of the `uint64` total, and of the quotient. -/
+
+/-- binary32 image of the positive rational `n / d` (normal range): `(m, e)` with value `m · 2^e` and
+`2^23 ≤ m < 2^24`; `(0, 0)` for zero. -/
+def f32OfRat (n d : Nat) : Nat × Int :=
+  if n = 0 ∨ d = 0 then (0, 0) else
+  let scale (e : Int) : Nat × Nat := if e ≥ 0 then (n, d * 2 ^ e.toNat) else (n * 2 ^ (-e).toNat, d)
+  let e0 : Int := (Nat.log2 n : Int) - (Nat.log2 d : Int) - 23
+  let p0 := scale e0
+  let e1 : Int := if p0.1 / p0.2 ≥ 2 ^ 24 then e0 + 1 else if p0.1 / p0.2 < 2 ^ 23 then e0 - 1 else e0
+  let p := scale e1
+  let q := p.1 / p.2
+  let r := p.1 % p.2
+  let q' := if 2 * r > p.2 ∨ (2 * r = p.2 ∧ q % 2 = 1) then q + 1 else q
+  if q' = 2 ^ 24 then (2 ^ 23, e1 + 1) else (q', e1)
+
+/-- `float32(total) / float32(secs)` for an integer `secs` that is exact in binary32. -/
+def f32Avg (total secs : Nat) : Nat × Int :=
+  let t := f32OfRat total 1
+  if t.2 ≥ 0 then f32OfRat (t.1 * 2 ^ t.2.toNat) secs else f32OfRat t.1 (secs * 2 ^ (-t.2).toNat)
+
+def showF32 (x : Nat × Int) : String := s!"f{x.1}e{x.2}"
+
+-- 1/3 = 0x3eaaaaab, 0.1 = 0x3dcccccd, 5/2048 exact, 2^64-1 rounds up to 2^64, a tie rounds to even
+example : f32OfRat 1 3 = (11184811, -25) ∧ f32OfRat 1 10 = (13421773, -27) ∧ f32Avg 5 2048 = (10485760, -32) ∧
+    f32OfRat 18446744073709551615 1 = (8388608, 41) ∧ f32OfRat 16777217 1 = (8388608, 1) ∧
+    f32OfRat 16777219 1 = (8388610, 1) := by decide
+
 /-! ## line protocol -/
 
 def showOut : Out → String
@@ -208,6 +240,12 @@ def stepLine (s : St) (toks : List String) : St × String :=
     else match h.toNat? with
       | some h => let r := step s (.avg h); (r.1, showOut r.2)
       | none => (s, "bad-op")
+  | ["avgf", h] =>   -- a positive shift-clock window of `h` half-units = `2048·h` s: the total and the returned float32
+    match h.toNat? with
+    | some h =>
+      let r := step s (.avg h)
+      (r.1, match r.2 with | .total n _ => s!"{n} {showF32 (f32Avg n (2048 * h))}" | .ok => "ok")
+    | none => (s, "bad-op")
   | _ => match parseOp toks with
     | some op => let r := step s op; (r.1, showOut r.2)
     | none => (s, "bad-op")
